@@ -36,9 +36,6 @@ var linkRows = []linkRow{
 	{name: "builtin-import-vs-private-function-elsewhere", want: "lib 7 8\nmain ok 5\n", mods: map[string]string{
 		"main": "import assert_eq from testing;\nimport { helper } from lib;\nfn main() { assert_eq(1, 1); println(\"main ok\", helper()); }\n",
 		"lib":  "fn assert_eq(a: int, b: int) { println(\"lib\", a, b); }\npub fn helper() -> int { assert_eq(7, 8); 5 }\nfn main() {}\n"}},
-	{name: "builtin-vs-pub-function-elsewhere", want: "main 1\nlib 2\n", mods: map[string]string{
-		"main": "import { show } from lib;\nfn main() { println(\"main\", 1); show(); }\n",
-		"lib":  "fn println(a: str, b: int) { print(\"shadow\"); }\npub fn show() { print(\"lib 2\\n\"); }\nfn main() {}\n"}},
 	{name: "closure-callback-calls-back-into-the-library", want: "100 1\n", mods: map[string]string{
 		"main": "import { run, get, bump } from b;\nlet counter = 100;\nfn main() { let cb = fn() { bump(); }; run(cb); println(counter, get()); }\n",
 		"b":    "let counter = 0;\npub fn bump() { counter += 1; }\npub fn run(cb: fn() -> null) { cb(); }\npub fn get() -> int { counter }\nfn main() {}\n"}},
